@@ -28,7 +28,7 @@ func init() {
 		Real:           []string{"client send loop, sync rounds (server selection, retry loop, merge, persistence, resend loop), reply parser, start-up server selection", "honest servers: real sync handler"},
 		Stub:           []string{"rogue servers (harness, holding the server's real key)", "TCP/UDP (simulated fabric)"},
 		Assumptions:    []string{"a stalled connection ends after a finite simulated time (the client has no read deadline of its own; an endless stall only blocks that one sync goroutine and, by design of the thread group, Close())"},
-		RequiredProbes: []string{"c11.rogue.short", "c11.rogue.signed-short", "c11.rogue.bans", "c11.rogue.many-entries", "c11.rogue.bad-loclen", "c11.all-failed-round", "c11.all-banned", "c11.restart", "c11.liveness-checked", "c11.flaky"},
+		RequiredProbes: []string{"c11.rogue.short", "c11.rogue.signed-short", "c11.rogue.bans", "c11.rogue.many-entries", "c11.rogue.bad-loclen", "c11.all-failed-round", "c11.all-banned", "c11.restart", "c11.liveness-checked", "c11.flaky", "c11.rogue.offset"},
 		RequiredSites:  []string{"send.wake", "csync.wake", "csync.start"},
 	})
 }
@@ -48,6 +48,10 @@ func runC11(m *Sim) {
 	w.SeedRandom()
 	gca := Key("gcaA")
 	start := uint32(600 + m.C.Int("start", 1500))
+	if m.C.Chance("late-start", 1, 3) {
+		// A device whose readings lie more than one window past slot 0.
+		start += 4032 + uint32(m.C.Int("later", 6000))
+	}
 	SetSlot(start)
 	dev := &Device{Role: "dev0", ID: 10, Key: Key("dev0")}
 	dev.Auth = StdAuth(gca, dev.ID, dev.Key, 1<<40)
@@ -348,6 +352,24 @@ func runC11(m *Sim) {
 // c11RogueReply builds one reply of a rogue server.
 func c11RogueReply(m *Sim, w *World, s *c11Server, srvs []*c11Server, dev *Device, gca *KeyPair, entry func(*c11Server, bool) server.AuthorizedServer) ([]byte, time.Duration) {
 	var none [4032]bool
+	// Any bitfield and any window offset: honest servers stay close to the
+	// clock, a rogue one does not have to.
+	switch m.C.Int("bits", 3) {
+	case 1:
+		for i := range none {
+			none[i] = true
+		}
+	case 2:
+		for i := range none {
+			none[i] = m.C.Int("bit", 2) == 1
+		}
+	}
+	now := Slot()
+	offs := []uint32{0, 0, now - 4031, now - 4032, now - 4033, now - 8000, now + 10, 1<<32 - 1, 2016 * (now / 2016), uint32(m.C.Int("off-any", 1<<20))}
+	rogueOffset := offs[m.C.Int("rogue-offset", len(offs))]
+	if rogueOffset != 0 {
+		m.Probe("c11.rogue.offset")
+	}
 	tnow := uint64(time.Now().Unix())
 	stall := time.Duration(0)
 	if m.C.Chance("stall", 1, 10) {
@@ -355,7 +377,7 @@ func c11RogueReply(m *Sim, w *World, s *c11Server, srvs []*c11Server, dev *Devic
 		m.Fault("tcp.stall")
 	}
 	signed := func(servers []server.AuthorizedServer) []byte {
-		return SealSyncReply(EncodeSyncBody(dev.Key.Pub, 0, &none, glow.PublicKey{}, 0, servers, [64]byte{}), tnow, s.key)
+		return SealSyncReply(EncodeSyncBody(dev.Key.Pub, rogueOffset, &none, glow.PublicKey{}, 0, servers, [64]byte{}), tnow, s.key)
 	}
 	switch m.C.Weighted("rogue", 3, 3, 3, 3, 2, 2, 2, 2, 2, 1) {
 	case 0: // arbitrary bytes
